@@ -14,6 +14,10 @@ FLAGS = ['HAVE_A', 'G_GUARD', 'def_b', 'ONCE_', 'FLAG9', 'inner_f']
 
 
 def num(rng, v):
+    if v < 0:
+        # a negative literal: minus sign in front of any notation
+        d = num(rng, -v)
+        return {'num': '-' + d['num'], 'v': v}
     r = rng.random()
     if r < 0.4:
         t = str(v)
@@ -85,7 +89,7 @@ class Gen:
                 val = {'sym': rng.choice(sorted(self.numsyms))}
                 v = self.numsyms[val['sym']]
             else:
-                v = rng.choice([0, 1, 2, 3, 9, 10, 11, 16, 100, 255])
+                v = rng.choice([0, 1, 2, 3, 9, 10, 11, 16, 100, 255, -1, -3, -16])
                 val = num(rng, v)
             self.numsyms[nm] = v
         else:
@@ -104,12 +108,16 @@ class Gen:
         rng = self.rng
         r = rng.random()
         if (r < 0.12 or not self.numsyms) and not (self.txtsyms and r > 0.9):
-            v = rng.choice([0, 1, 0, 1, 2])
+            v = rng.choice([0, 1, 0, 1, 2, -1, -2])
             self.tags.add('if:bare-literal')
+            if v < 0:
+                self.tags.add('if:bare-negative')
             return {'bare': num(rng, v)}
         if r < 0.22:
             s = rng.choice(sorted(self.numsyms))
             self.tags.add('if:bare-symbol')
+            if self.numsyms[s] < 0:
+                self.tags.add('if:bare-negative')
             return {'bare': {'sym': s}}
         if r > 0.9 and self.txtsyms:
             s = rng.choice(sorted(self.txtsyms))
@@ -119,7 +127,7 @@ class Gen:
         s = rng.choice(sorted(self.numsyms))
         v = self.numsyms[s]
         op = rng.choice(OPS)
-        rv = rng.choice([v, v, v + 1, max(0, v - 1), rng.choice([0, 1, 10, 16, 255])])
+        rv = rng.choice([v, v, v + 1, v - 1 if v <= 0 else max(0, v - 1), rng.choice([0, 1, 10, 16, 255, -1])])
         if rng.random() < 0.2 and len(self.numsyms) > 1:
             rhs = {'sym': rng.choice(sorted(self.numsyms))}
         else:
@@ -419,7 +427,7 @@ class C08(core.Check):
     required_buckets = {b: 3 for b in [
         'opener:if', 'opener:ifdef', 'opener:ifndef', 'has-elif', 'has-else', 'depth:2', 'depth:3',
         'define-inside-block-that-tests-it', 'effect:define', 'effect:label', 'effect:constant', 'effect:create_memzone',
-        'effect:mute', 'effect:include', 'effect:origin', 'effect:zone-switch', 'starts-in-named-zone', 'effect:unmute-inside-branch-while-muted', 'if:bare-literal', 'if:bare-symbol', 'if:text-comparison', 'if:op==', 'if:op!=',
+        'effect:mute', 'effect:include', 'effect:origin', 'effect:zone-switch', 'starts-in-named-zone', 'effect:unmute-inside-branch-while-muted', 'if:bare-literal', 'if:bare-symbol', 'if:bare-negative', 'if:text-comparison', 'if:op==', 'if:op!=',
         'if:op>', 'if:op>=', 'if:op<', 'if:op<=', 'ctx:unsel:nested-in-unselected', 'ctx:unsel:earlier-branch-taken',
         'ctx:unsel:condition-false', 'numeric-vs-text-disagree', 'stray:else', 'stray:elif', 'stray:endif', 'stray:in-included-file', 'same-condition-text-before-and-after-define',
         'source:cli', 'source:isa']}
@@ -531,7 +539,7 @@ class C08(core.Check):
         # emit the same byte, because what an undefined symbol compares to is not fixed), then after the #define
         k = 0
         for cond_txt, val, truth in (('SYMQ == 2', '2', True), ('SYMQ == 2', '3', False), ('SYMQ != 2', '2', False), ('SYMQ >= 5', '7', True),
-                                     ('SYMQ', '1', True), ('SYMQ', '0', False), ('SYMQ < 10', '$0A', False), ('SYMQ == fast', 'fast', True),
+                                     ('SYMQ', '1', True), ('SYMQ', '0', False), ('SYMQ', '-1', True), ('SYMQ', '-$10', True), ('SYMQ >= 0', '-2', False), ('SYMQ < 10', '$0A', False), ('SYMQ == fast', 'fast', True),
                                      ('2 == SYMQ', '2', True), ('SYMQ <= 8', '0x08', True)):
             for first_kind in ('if', 'elif'):
                 for second_kind in ('if', 'elif'):
